@@ -42,3 +42,12 @@ def split_counts(total, parts):
     for i in range(total - base * parts):
         out[i] += 1
     return out
+
+
+def under_O(spec, **over):
+    """A copy of a shard spec that runs in an interpreter started with -O (assert statements compiled away)."""
+    sp = dict(spec)
+    sp.update(over)
+    sp["name"] = spec["name"] + "-O"
+    sp["env"] = dict(spec.get("env") or {}, PYTHONOPTIMIZE="1")
+    return sp
